@@ -108,18 +108,18 @@ def shl (a b : Int) : Except PyErr Int := if b < 0 then .error .valueError else 
 /-- Python `a >> b` -/
 def shr (a b : Int) : Except PyErr Int := if b < 0 then .error .valueError else .ok (a / 2 ^ b.toNat)
 
-/-- Python `&` on unbounded two's-complement ints -/
+/-- Python `&` on unbounded two's-complement ints (`-[a+1]` is `~a`; `x &&& ~b` is written `x ^^^ (x &&& b)`) -/
 def land : Int → Int → Int
   | .ofNat a, .ofNat b => ((a &&& b : Nat) : Int)
-  | .ofNat a, .negSucc b => ((a - (a &&& b) : Nat) : Int)
-  | .negSucc a, .ofNat b => ((b - (b &&& a) : Nat) : Int)
+  | .ofNat a, .negSucc b => ((a ^^^ (a &&& b) : Nat) : Int)
+  | .negSucc a, .ofNat b => ((b ^^^ (b &&& a) : Nat) : Int)
   | .negSucc a, .negSucc b => .negSucc (a ||| b)
 
 /-- Python `|` on unbounded two's-complement ints -/
 def lor : Int → Int → Int
   | .ofNat a, .ofNat b => ((a ||| b : Nat) : Int)
-  | .ofNat a, .negSucc b => .negSucc (b - (b &&& a))
-  | .negSucc a, .ofNat b => .negSucc (a - (a &&& b))
+  | .ofNat a, .negSucc b => .negSucc (b ^^^ (b &&& a))
+  | .negSucc a, .ofNat b => .negSucc (a ^^^ (a &&& b))
   | .negSucc a, .negSucc b => .negSucc (a &&& b)
 
 /-! ### characterisation lemmas (simp-normal forms used by the proofs) -/
